@@ -7,6 +7,7 @@ import sys
 from typing import Any, Iterator
 
 from ..explore import corpus, tokspace
+from ..oracle import flat
 
 ID = "C15"
 ENGINE = "option grid verbose x py_version x mode over statement pool, corpus, version-gated constructs and E-TOK trees; outcome-invariance / monotonicity oracle"
@@ -20,12 +21,12 @@ RULE = (
     "positions, or exception class + message + location) is identical with verbose on and off; for each version it "
     "equals the default outcome or is a SyntaxError naming a required version above it; below the version that CPython's "
     "own tree says the program needs (except*: 3.11; type statements and type-parameter lists: 3.12) it must be that error; and from the first version "
-    "that gives the default outcome on, all higher ones do. Non-trivial = inputs x configurations evaluated (distinct)."
+    "that gives the default outcome on, all higher ones do; a rejection may only name 3.11 or 3.12, and for a program CPython parses only a version one of its own gated constructs needs. Long chains (10 shapes x 5 sizes up to 4500 operands) with verbose on and off. Non-trivial = inputs x configurations evaluated (distinct)."
 )
-BOUND = {"quick": "pool + 150 corpus statements + gated list: full 28-point grid; E-TOK n<=3 (expr, stmt, xsh, match) and the wrapped family: 7 points",
-         "thorough": "pool + all corpus statements + gated list: full grid; E-TOK n<=4 (stmt n<=3) and the wrapped family: 7 points"}
+BOUND = {"quick": "pool + 150 corpus statements + gated list: full 28-point grid; E-TOK n<=3 (expr, stmt, xsh, match) and the wrapped family: 7 points; long chains x verbose",
+         "thorough": "pool + all corpus statements + gated list: full grid; E-TOK n<=4 (stmt n<=3) and the wrapped family: 7 points; long chains x verbose"}
 ASSUMPTIONS = ["stdout is discarded while verbose tracing is on; tracing cost bounds the input sizes used"]
-CASE_DEADLINE = 30.0
+CASE_DEADLINE = 150.0  # the long chains under verbose tracing take seconds; a tracing change that is quadratic takes minutes
 
 VERSIONS = [None, (3, 8), (3, 9), (3, 10), (3, 11), (3, 12), (3, 13)]
 GATED = [
@@ -67,7 +68,7 @@ def outcome(src: str, mode: str, py_version: Any, verbose: bool) -> tuple:
         return ("TokenError", repr(e.args))
     except Exception as e:  # noqa: BLE001
         return ("other", type(e).__name__, str(e)[:120])
-    return ("tree", ast.dump(tree, include_attributes=True) if isinstance(tree, ast.AST) else repr(tree))
+    return ("tree", flat.dump(tree) if isinstance(tree, ast.AST) else repr(tree))
 
 
 # every type-parameter list of one or two parameters over the five parameter forms, on every carrier that takes one
@@ -85,7 +86,26 @@ def units(tier: str) -> list[tuple]:
         us += [("light",) + u for u in tokspace.units(v, n)]
     ne = len(_wrap_sources())
     us += [("wrap", i, min(ne, i + 10)) for i in range(0, ne, 10)]
+    us += [("long", i) for i in range(len(LONG))]
     return us
+
+
+# long chains: the trees of left-recursive rules are far deeper than the parser's own stack; whatever tracing does with a
+# result (format it, measure it) must not depend on the depth.  Sizes straddle the depth at which a tree walk that
+# recurses per level runs out of stack under the recursion limit the library itself sets.
+LONG_SIZES = (300, 1000, 2000, 3000, 4500)
+LONG = [
+    lambda n: "x = " + " + ".join(["a"] * n) + "\n",
+    lambda n: "x" + ".a" * n + "\n",
+    lambda n: "x" + "()" * n + "\n",
+    lambda n: "x" + "[0]" * n + "\n",
+    lambda n: "x = " + "(" * 10 + " + ".join(["a"] * n) + ")" * 10 + "\n",
+    lambda n: "def f():\n    if a:\n        for i in j:\n            x = [" + " * ".join(["a"] * n) + "]\n",
+    lambda n: "x = " + " and ".join(["a"] * n) + "\n",
+    lambda n: "x = " + " if b else ".join(["a"] * (n // 3)) + "\n",
+    lambda n: "f(" + " | ".join(["$A"] * n) + ")\n",
+    lambda n: "x = " + " + ".join(["a"] * n) + " +\n",  # the same chain, failing at its end
+]
 
 
 WRAPPERS = ["{S}", "[{S}]", "({S})", "f({S})", "if ({S}):\n    pass\n", "x[{S}]", "{{{S}}}", "while [{S}]:\n    pass\n", "$({S})", "@({S})"]
@@ -109,6 +129,9 @@ def cases(unit: tuple) -> Iterator[dict]:
             for w in WRAPPERS:
                 t = w.replace("{{", "\0").replace("}}", "\1").replace("{S}", s).replace("\0", "{").replace("\1", "}")
                 yield {"src": t if t.endswith("\n") else t + "\n", "grid": "light"}
+    elif unit[0] == "long":
+        for n in LONG_SIZES:
+            yield {"src": LONG[unit[1]](n), "grid": "verbose-only"}
     else:
         for s, _ in tokspace.expand(unit[1:]):
             yield {"src": s, "grid": "light"}
@@ -128,7 +151,7 @@ def _needed_version(src: str, mode: str) -> tuple[int, int] | None:
         with warnings.catch_warnings():
             warnings.simplefilter("ignore")
             tree = ast.parse(src, mode=mode)
-    except (SyntaxError, ValueError):
+    except (SyntaxError, ValueError, RecursionError, MemoryError):
         return None
     need = None
     for n in ast.walk(tree):
@@ -139,6 +162,29 @@ def _needed_version(src: str, mode: str) -> tuple[int, int] | None:
     return need
 
 
+def _gated_versions(src: str, mode: str) -> set[tuple[int, int]] | None:
+    """The versions that the gated constructs of a plain-Python program need, each on its own (a rejection may name any
+    of them); None for programs CPython does not parse."""
+    import warnings
+
+    try:
+        with warnings.catch_warnings():
+            warnings.simplefilter("ignore")
+            tree = ast.parse(src, mode=mode)
+    except (SyntaxError, ValueError, RecursionError, MemoryError):
+        return None
+    out = set()
+    for n in ast.walk(tree):
+        if isinstance(n, ast.TypeAlias) or getattr(n, "type_params", None):
+            out.add((3, 12))
+        elif isinstance(n, ast.TryStar):
+            out.add((3, 11))
+    return out
+
+
+GATES = {(3, 11), (3, 12)}  # the property's closed list: except* (3.11), type-parameter lists and type statements (3.12)
+
+
 _NEEDS = re.compile(r"only supported in Python \((\d+), (\d+)\) and above")
 
 
@@ -146,6 +192,8 @@ def check_case(case: dict, acc: Any) -> None:
     src = case["src"]
     if case["grid"] == "full":
         modes, versions, verb_versions = ("exec", "eval"), VERSIONS, VERSIONS
+    elif case["grid"] == "verbose-only":
+        modes, versions, verb_versions = ("exec",), [None], [None]
     else:
         modes, versions, verb_versions = ("exec", "eval"), [None, (3, 8), (3, 10), (3, 12)], [None]
     for mode in modes:
@@ -183,6 +231,10 @@ def check_case(case: dict, acc: Any) -> None:
                 acc.violation(f"VERSION outcome differs without naming a version ({base[0]}->{o[0]}) mode={mode}", c, {"default": base[:4], "got": o[:4]})
                 return
             need = (int(m.group(1)), int(m.group(2)))
+            gated = _gated_versions(src, mode) if base[0] == "tree" else None
+            if need not in GATES or (gated is not None and need not in gated):
+                acc.violation(f"VERSION rejects syntax that is not version-gated (names {need}) mode={mode}", c, {"gated_constructs_need": sorted(gated or []), "got": o[:4]})
+                return
             if v >= need:
                 acc.violation(f"VERSION rejected at or above the version it names mode={mode}", c, {"need": need, "got": o[:4]})
                 return
